@@ -286,6 +286,37 @@ func c09ClauseCase(r *rt.Run, text string, family string) {
 	}
 }
 
+// c09ClauseAST round-trips a clause given as a syntax tree: print, parse, compare structurally, print again.
+func c09ClauseAST(r *rt.Run, c1 ast.Clause, desc, family string) {
+	var detail string
+	pv, st := rt.Try(func() {
+		p1 := c1.String()
+		c2, err := parse.Clause(p1)
+		if err != nil {
+			detail = fmt.Sprintf("%s: printed clause %q does not parse back: %v", desc, p1, err)
+			return
+		}
+		if d := clauseEq(c1, c2); d != "" {
+			detail = fmt.Sprintf("%s: printed as %q it parses back differently: %s", desc, p1, d)
+			return
+		}
+		if p2 := c2.String(); p2 != p1 {
+			detail = fmt.Sprintf("%s: print∘parse∘print is not a fixpoint: %q vs %q", desc, p1, p2)
+		}
+	})
+	r.Add("states", 1)
+	r.Add("evaluations", 1)
+	r.Add("transitions", 3)
+	r.Add("traces_validated_against_impl", 1)
+	if pv != nil {
+		r.Violate("panic-clause", fmt.Sprintf("%s: %v at %s", desc, pv, rt.ShortStack(st)), map[string]any{"clause": c1.String()})
+		return
+	}
+	if detail != "" {
+		r.Violate("clause-round-trip-"+family, detail, map[string]any{"clause": c1.String(), "family": family})
+	}
+}
+
 func c09Clauses(r *rt.Run) {
 	// the C04 clause space up to k=2 (k=3 in thorough)
 	k := 2
@@ -317,10 +348,42 @@ func c09Clauses(r *rt.Run) {
 	// clauses that end in a name constant, and chained transforms
 	for _, body := range []string{"q(X), X = /rate/50%", "q(X), r(X, \"a%b\")", "q(X), r(X, \"%s %d %v %%\")", "q(/a%20b), q(X)", "q(X), X != b\"%x\"", "q(X), X = /a", "X = /a, q(X)", "q(X), X != /a/b", "q(X), /a = X", "q(X), X = /a.b", "q(X), !s(/a)", "q(X), X = \"s\"", "q(X), X = 1.5"} {
 		for _, h := range c04Heads {
-			for _, t := range append(append([]string{}, c04Transforms...), " |> let Y = fn:plus(X, 1) |> let Z = fn:plus(Y, 1)", " |> do fn:group_by(X), let Y = fn:count() |> let Z = fn:plus(Y, 1)", " |> let Y = /a", " |> do fn:group_by(), let Y = fn:count() |> let Z = /a") {
+			for _, t := range append(append([]string{}, c04Transforms...), " |> let Y = fn:plus(X, 1) |> let Z = fn:plus(Y, 1)", " |> do fn:group_by(X), let Y = fn:count() |> let Z = fn:plus(Y, 1)", " |> let Y = /a", " |> do fn:group_by(), let Y = fn:count() |> let Z = /a",
+				" |> let Y = fn:plus(X, 1) |> let Z = fn:plus(Y, 1) |> let W = fn:plus(Z, 1)", " |> do fn:group_by(X), let Y = fn:count() |> let Z = fn:plus(Y, 1) |> let W = fn:plus(Z, 1) |> let V = fn:plus(W, 1)") {
 				c09ClauseCase(r, h+" :- "+body+t+".", "plain-extra")
 				c09ClauseCase(r, h+" :- "+body+t+" .", "plain-extra")
 			}
+		}
+	}
+	// transform chains built through the AST (each stage parsed on its own and linked by Next), so that a stage the
+	// parser would lose when reading the whole chain is still part of the tree that is printed
+	stages := []string{"do fn:group_by(X), let Y = fn:count()", "let Z = fn:plus(Y, 1)", "let W = fn:plus(Z, 1)", "let V = fn:mult(W, 2)", "let U = /a"}
+	for n := 2; n <= len(stages); n++ {
+		for start := 0; start+n <= len(stages); start++ {
+			var chain []*ast.Transform
+			ok := true
+			for _, st := range stages[start : start+n] {
+				c, err := parse.Clause("h(X) :- q(X) |> " + st + ".")
+				if err != nil || c.Transform == nil {
+					ok = false
+					break
+				}
+				t := *c.Transform
+				t.Next = nil
+				chain = append(chain, &t)
+			}
+			if !ok {
+				continue
+			}
+			for i := 0; i+1 < len(chain); i++ {
+				chain[i].Next = chain[i+1]
+			}
+			base, err := parse.Clause("h(X) :- q(X), r(X, Y).")
+			if err != nil {
+				continue
+			}
+			base.Transform = chain[0]
+			c09ClauseAST(r, base, fmt.Sprintf("chain of %d transforms built through the AST", n), "transform-chain-ast")
 		}
 	}
 	// temporal clauses
